@@ -36,7 +36,68 @@ func (c04) tracedCount(tier string) int   { return tierN(tier, 1500, 300000) }
 func (p c04) NumCases(tier string) int    { return p.drivenCount(tier) + p.tracedCount(tier) }
 func (c04) MinNontrivial(tier string) int { return tierN(tier, 500, 5000) }
 
+// reprepared: the started factory is prepared and refreshed a second time (the way a component registered at run time
+// is picked up): creation of every singleton had completed - what is returned for its name afterwards is still the
+// published instance, and nothing is initialised again.
+func (p c04) reprepared(c *core.Ctx) {
+	sc := RandomGraph(c.Rng, GraphOpts{MinN: 2, MaxN: 7, Types: plainAB, PCycle: 0.6, Chords: 1, ByTypeSlice: 0.2, OnlyIface: true, PUnnamed: 0.3})
+	var extra []any
+	plan := map[string]world.SubPlan{}
+	if c.Rng.Intn(2) == 0 {
+		plan[sc.Nodes[c.Rng.Intn(len(sc.Nodes))].DisplayName()] = []world.SubPlan{{After: true}, {Early: true}, {Before: true}}[c.Rng.Intn(3)]
+		extra = append(extra, world.NewSubstituter(plan))
+	}
+	r := world.Start(sc, world.Options{Extra: extra})
+	c.Count("starts", 1)
+	if r.Outcome() != "ok" {
+		return // (refused substitutions are C03's subject)
+	}
+	c.Count("reprepared_starts", 1)
+	first := map[string]any{}
+	inits := map[string]int{}
+	for i := range sc.Nodes {
+		name := sc.Nodes[i].DisplayName()
+		var o any
+		var err error
+		r.Guard(func() { o, err = r.App.GetComponentByName(name) })
+		if err == nil && r.Panic == nil {
+			first[name] = o
+		}
+		inits[name] = countEvents(r, "init", name) + countEvents(r, "aps", name)
+	}
+	var e1, e2 error
+	r.Guard(func() {
+		if e1 = r.App.PrepareComponents(); e1 == nil {
+			e2 = r.App.Refresh()
+		}
+	})
+	detail := failDetail(sc, r, map[string]any{"plan": plan, "second_prepare": fmt.Sprint(e1), "second_refresh": fmt.Sprint(e2)})
+	if r.Panic != nil || r.Diverge != nil {
+		c.Fail("", "second PrepareComponents / Refresh on a started factory: "+r.OutcomeDetail(), detail)
+		return
+	}
+	for i := range sc.Nodes {
+		name := sc.Nodes[i].DisplayName()
+		var o any
+		var err error
+		r.Guard(func() { o, err = r.App.GetComponentByName(name) })
+		if f, had := first[name]; had && (err != nil || o != f) {
+			c.Fail("", fmt.Sprintf("the creation of %q had completed and published %p; after the factory was prepared and refreshed again a lookup returns %p (error: %v)", name, f, o, err), detail)
+			return
+		}
+		if n := countEvents(r, "init", name) + countEvents(r, "aps", name); n != inits[name] {
+			c.Fail("", fmt.Sprintf("the finished singleton %q was initialised again after the factory was prepared and refreshed a second time (%d -> %d callbacks)", name, inits[name], n), detail)
+			return
+		}
+	}
+	c.Nontrivial("reprepared|" + sc.GraphSig() + fmt.Sprint(len(plan)))
+}
+
 func (p c04) Run(c *core.Ctx) {
+	if c.Index >= p.drivenCount(c.Tier) && c.Index%25 == 7 {
+		p.reprepared(c)
+		return
+	}
 	if c.Index < p.drivenCount(c.Tier) {
 		p.driven(c)
 	} else {
